@@ -118,9 +118,9 @@ def boundary_obls(prefix):
     cfg = [(0, 1, (0, 1), "quick"), (0, 1, (0, 2), "quick"), (0, 1, (0, 3), "quick"), (0, 6, (0, 0, 0, 0, 0, 0, 3), "quick"),
            (0, 1, (0, 4), "thorough"),
            # 3 files: quick
-           (1, 1, (0, 2, 1), "quick"), (1, 5, (0, 0, 0, 0, 0, 2, 1), "quick"), (1, 0, (2, 1), "quick"), (1, 4, (0, 0, 0, 0, 1, 1, 1), "quick"),
+           (1, 1, (0, 2, 1), "quick"), (1, 5, (0, 0, 0, 0, 0, 2, 1), "quick"), (1, 0, (1, 1), "quick"), (1, 0, (2, 1), "thorough"), (1, 4, (0, 0, 0, 0, 1, 1, 1), "quick"),
            (2, 1, (0, 2, 1), "quick"), (2, 4, (0, 0, 0, 0, 1, 1, 1), "quick"),
-           (3, 1, (0, 2, 1), "quick"), (3, 0, (2, 1), "quick"),
+           (3, 1, (0, 2, 1), "quick"), (3, 0, (1, 1), "quick"), (3, 0, (2, 1), "thorough"),
            # 4+ files: thorough (measured 130-260 s CPU each)
            (1, 1, (0, 2, 1, 1), "thorough"), (1, 1, (0, 2, 2, 0), "thorough"), (1, 1, (0, 3, 1, 0), "thorough"), (1, 0, (2, 1, 1), "thorough"),
            (1, 5, (0, 0, 0, 0, 0, 2, 2), "thorough"), (1, 4, (0, 0, 0, 0, 2, 1, 1), "thorough"),
